@@ -20,8 +20,8 @@ Theorem error_literal_parenthesised h s : xval h (XPar (XErr s)) = (RRaise (err_
 Proof. reflexivity. Qed.
 (* as an argument of any call - custom or built-in, trapping or not - once the arguments before it have evaluated: the call
    itself is never made (no event), IFERROR and friends cannot observe a raised error *)
-Theorem error_literal_argument h name pre s post vs evs : xvals (xval h) pre = (ROk vs, evs) ->
-  xval h (XCall name (pre ++ XErr s :: post)) = (RRaise (err_of_text s), evs).
+Theorem error_literal_argument h sp name pre s post vs evs : xvals (xval h) pre = (ROk vs, evs) ->
+  xval h (XCall sp name (pre ++ XErr s :: post)) = (RRaise (err_of_text s), evs).
 Proof.
   intros H. cbn [xval].
   assert (xvals (xval h) (pre ++ XErr s :: post) = (RRaise (err_of_text s), evs)) as ->; [|reflexivity].
